@@ -1285,7 +1285,8 @@ class LoadFunc(_CallOrLoad, DataflowOp):
             is provided.
     """
 
-    num_out: int = field(default=1, repr=False)
+    # LoadFunc is not a dataclass, so a `field(...)` default would be exposed as is
+    num_out: int = 1
 
     def _to_serial(self, parent: Node) -> sops.LoadFunction:
         return sops.LoadFunction(
